@@ -221,9 +221,9 @@ def install(engine, st: State):
             ctx.assume(Implies(in_re(s.t, app("re.++", "re.all", C)), in_re(r.t, app("re.++", "re.all", IMG))))
             return r
         x, rest, img = ctx.fresh("String", "run"), ctx.fresh("String", "rest"), ctx.fresh("String", "img")
-        # lemma (factor closure, by induction on length -- not provable by the solvers, trusted): a factor of a word over an
+        # lemma (factor closure, by induction on length -- not provable by the solvers; checked by Lean: lean/Glue.lean L4_factor_closure): a factor of a word over an
         # alphabet A is a word over A; instantiated for A = identifier characters and the decomposition s == x ++ rest
-        U("lemma 'factor closure': s in A* and s == x ++ rest (or rest ++ x) imply rest in A*, for A = [a-zA-Z0-9_] (trusted, induction on length)")
+        U("lemma 'factor closure': s in A* and s == x ++ rest (or rest ++ x) imply rest in A*, for A = [a-zA-Z0-9_] (Lean lemma L4_factor_closure, lean/Glue.lean)")
         okstar = app("re.*", OKCH)
         ctx.assume(Implies(in_re(s.t, okstar), in_re(rest, okstar)))
         # derived fact handed to the solver ready-made: every image is a word over A (proved here for an arbitrary image),
@@ -255,7 +255,7 @@ def install(engine, st: State):
         if text != r"^_+([A-Z]?)":
             raise OutOfSubset(f"re.match contract for {text!r}")
         U("re.match('^_+([A-Z]?)', s): greedy match with disjoint classes (see contracts/c09.py)")
-        U("lemma 'factor closure' instantiated for s == u ++ g ++ rest in re.match (trusted, induction on length)")
+        U("lemma 'factor closure' instantiated for s == u ++ g ++ rest in re.match (Lean lemma L4_factor_closure, lean/Glue.lean)")
         ctx = it.ctx
         okstar = app("re.*", OKCH)
         if not ctx.branch(VBool(in_re(s.t, '(re.++ (str.to_re "_") re.all)')), "re.match-succeeds"):
